@@ -39,6 +39,11 @@ func stdlibWrites(fn *ssa.Function) ([]types.Type, bool) {
 	case strings.HasPrefix(n, "(encoding/binary.bigEndian).PutUint") || strings.HasPrefix(n, "(encoding/binary.littleEndian).PutUint"):
 		return []types.Type{types.Typ[types.Uint8]}, true
 	}
+	if o := fn.Origin(); o != nil && o.String() == "slices.Sort" && fn.Signature.Params().Len() == 1 {
+		if sl, ok := fn.Signature.Params().At(0).Type().Underlying().(*types.Slice); ok && scalarElem(sl.Elem()) {
+			return []types.Type{sl.Elem()}, true
+		}
+	}
 	return nil, false
 }
 
@@ -118,6 +123,30 @@ func (e *Encoder) stdlibCall(callee *ssa.Function, cm *ssa.CallCommon, args []Va
 		return "(+ " + strings.Join(terms, " ") + ")"
 	}
 	switch {
+	case n == "slices.Sort" && len(args) == 1:
+		// slices.Sort(x) for integer elements (trusted library model): only the elements x[0:len(x)] change,
+		// and afterwards they are in ascending order. (That the result is a permutation is not modelled.)
+		sl, ok := args[0].T.Underlying().(*types.Slice)
+		if !ok || !scalarElem(sl.Elem()) || !isInt(sl.Elem().Underlying()) {
+			return Val{}, false
+		}
+		use()
+		s, elem := args[0], sl.Elem()
+		key, srt := c.arrKey(elem), c.arrSort(elem)
+		A := st.get(c, key, srt)
+		arr := c.fresh("sorted")
+		c.declare(arr, fmt.Sprintf("(Array %s %s)", c.idx(), c.sortOf(elem)))
+		off := fmt.Sprintf("(soff %s)", s.S)
+		end := c.binopIdx("+", off, fmt.Sprintf("(slen %s)", s.S))
+		inr := and(c.cmp("<=", intT, off, "i!s"), c.cmp("<", intT, "i!s", end))
+		old := fmt.Sprintf("(select %s (sbase %s))", A, s.S)
+		c.assume(fmt.Sprintf("(forall ((i!s %s)) (! (=> (not %s) (= (select %s i!s) (select %s i!s))) :pattern ((select %s i!s))))", c.idx(), inr, arr, old, arr))
+		nxt := c.binopIdx("+", "i!s", c.idxLit(1))
+		inr2 := and(c.cmp("<=", intT, off, "i!s"), c.cmp("<", intT, nxt, end))
+		c.assume(implies(pc, fmt.Sprintf("(forall ((i!s %s)) (! (=> %s %s) :pattern ((select %s i!s))))", c.idx(), inr2,
+			c.cmp("<=", elem, fmt.Sprintf("(select %s i!s)", arr), fmt.Sprintf("(select %s %s)", arr, nxt)), arr)))
+		st.mem[key] = c.define("M_"+key, srt, fmt.Sprintf("(store %s (sbase %s) %s)", A, s.S, arr))
+		return Val{T: resT}, true
 	case strings.HasPrefix(n, "(encoding/binary.bigEndian).Uint") || strings.HasPrefix(n, "(encoding/binary.littleEndian).Uint"):
 		use()
 		little := strings.Contains(n, "littleEndian")
